@@ -318,6 +318,16 @@ def check_budget(ck, cm: CacheModel):
           "the accounted size does not come from the size estimator", fa.where(ins))
 
 
+def check_queue_unbounded(ck, cm, R):
+    ini = FA(ck, cm.init)
+    for st in ini.stmts(ast.Assign):
+        if any(self_attr(t, cm.queue) for t in st.targets) and isinstance(st.value, ast.Call):
+            ok = not st.value.args and not st.value.keywords
+            ck.ob(R, ini.key(None, "queue-unbounded"), ok, "the recency queue never drops keys on its own" if ok else
+                  "the recency queue is constructed as `%s`: once full it silently drops the oldest key while its entry stays resident, so that entry "
+                  "can never be evicted and the budget is exceeded" % A.norm(st.value), ini.where(st))
+
+
 def check_lru(ck, cm: CacheModel):
     R = "C06.R3"
     ck.rule(R, "LRU discipline: mark-used = remove then append (right end); eviction takes the left end; every "
@@ -427,5 +437,6 @@ def check(ck):
     check_accounting(ck, cm)
     check_budget(ck, cm)
     check_lru(ck, cm)
+    check_queue_unbounded(ck, cm, "C06.R3")
     check_replace_on_put(ck, cm, "C06.R4")
     check_forget(ck, cm, "C06.R5")
